@@ -7,8 +7,8 @@
    yields v without undefined behaviour or an access outside that object.
    [group_encode] is the hand model of varintGroupEncode (Group.v), tied to the C
    by differential execution.  Nothing but statements closed by `exact`. *)
-Require Import VV.Base VV.CSem VV.Delta VV.Group VV.LeafSrcGroup VV.LeafSrcGroupProps.
-Require Import VVgen.Src_leaf_group.
+Require Import VV.Base VV.CSem VV.Delta VV.Group VV.FOR VV.LeafSrcGroup VV.LeafSrcGroupProps VV.LeafSrcFOR.
+Require Import VVgen.Src_leaf_group VVgen.Src_leaf_for.
 Local Open Scope Z_scope.
 
 (* ---- the regenerated leaf functions compute the hand model, on their whole C domain ---- *)
@@ -78,4 +78,41 @@ Example C16_src_group_example :
   src_varintGroupGetFieldWidth [2; 1; 7; 0; 1]%N 2 = COk 0 /\
   src_varintGroupBitmapSize_ 5 = COk 2 /\
   src_varintGroupWidthEncode_ 4 = COk 2 /\ src_varintGroupWidthDecode_ 2 = COk 4.
+Proof. vm_compute. repeat split; reflexivity. Qed.
+
+(* ======================= varintFOR.c: varintFORComputeWidth ======================= *)
+
+(* the regenerated function computes the hand model on all of uint64_t; its loop
+   `while ((v >>= 8) != 0) width++` needs at most 8 iterations (fuel) *)
+Theorem C16_src_varintFORComputeWidth_is_model : forall fuel range, (8 <= fuel)%nat ->
+  0 <= range < 18446744073709551616 ->
+  src_varintFORComputeWidth fuel range = COk (Z.of_N (for_compute_width (Z.to_N range))).
+Proof. exact src_varintFORComputeWidth_is_model. Qed.
+Print Assumptions C16_src_varintFORComputeWidth_is_model.
+
+(* it yields the least number of bytes (1..8) that holds the range *)
+Theorem C16_src_for_compute_width_least : forall fuel r, (8 <= fuel)%nat -> (r < 18446744073709551616)%N ->
+  exists w, src_varintFORComputeWidth fuel (Z.of_N r) = COk (Z.of_N w) /\
+    (1 <= w <= 8 /\ r < 256 ^ w /\ (w = 1 \/ 256 ^ (w - 1) <= r))%N.
+Proof. exact src_for_compute_width_least. Qed.
+Print Assumptions C16_src_for_compute_width_least.
+
+(* C16 for_analyze_truth, width part: the offsetWidth in the analysed metadata is
+   varintFORComputeWidth(range) of the regenerated source, range = max - min, and holds the range *)
+Theorem C16_src_for_analyze_truth_width : forall xs fuel,
+  xs <> [] -> Forall (fun x => (x < 18446744073709551616)%N) xs -> (8 <= fuel)%nat ->
+  exists m, for_analyze xs = Some m /\
+    (fm_range m = fm_max m - fm_min m)%N /\
+    src_varintFORComputeWidth fuel (Z.of_N (fm_range m)) = COk (Z.of_N (fm_width m)) /\
+    (fm_range m < 256 ^ fm_width m)%N /\
+    (fm_width m = 1 \/ 256 ^ (fm_width m - 1) <= fm_range m)%N.
+Proof. exact src_for_analyze_width. Qed.
+Print Assumptions C16_src_for_analyze_truth_width.
+
+(* non-vacuity: the regenerated function on both sides of byte-width boundaries *)
+Example C16_src_for_example :
+  src_varintFORComputeWidth 8 0 = COk 1 /\ src_varintFORComputeWidth 8 255 = COk 1 /\
+  src_varintFORComputeWidth 8 256 = COk 2 /\ src_varintFORComputeWidth 8 69995 = COk 3 /\
+  src_varintFORComputeWidth 8 18446744073709551615 = COk 8 /\
+  src_varintFORComputeWidth 3 18446744073709551615 = CFuel.
 Proof. vm_compute. repeat split; reflexivity. Qed.
